@@ -32,8 +32,9 @@ Definition bl_obs_eqb (a b : bl_obs) : bool :=
   | _, _ => false
   end.
 
+(* HeapPriorityQueue over the concrete heapq model *)
 Definition model_heap (ops : list pq_op) : list pq_obs :=
-  q_run heap_backend (q_init heap_backend) ops.
+  q_run heapq_backend (q_init heapq_backend) ops.
 Definition model_sorted (lim : list (N * N)) (ops : list pq_op) : list pq_obs :=
   let bk := sorted_backend (limit_of lim) in q_run bk (q_init bk) ops.
 Definition model_barrel (lim : list (N * N)) (ops : list bl_op) : list bl_obs :=
